@@ -132,17 +132,19 @@ DoTake(r, h, b, bs, op) ==
         legalReq == ~isprep /\ q.ph = "exec" /\ (TakeIsNext(q, h) \/ TakeIsSame(q, h))
         legalPrep == isprep /\ q.ph = "exec" /\ TakeIsPrep(q, b)
         ghost == ~isprep /\ ~legalReq /\ TakeIsGhost(q, h)
-        forked == q.fork /\ q.idem /\ q.nrep = 0
+        \* a stale pending entry re-executes the request on a second path; that path may still be sending
+        \* (a re-prepare, a re-execution) when the first path has already answered the client
+        forked == q.fork /\ (q.idem \/ isprep)
         legal == legalReq \/ legalPrep \/ ghost \/ forked
         reexec == ~isprep /\ q.natt > 0
         \* C04: a request not positively idempotent is re-sent only after safe outcomes
         c04ok == ~(reexec /\ ~q.idem /\ q.unsafe)
-        why == IF ~c04ok THEN "C04" ELSE IF q.nrep > 0 THEN "C01" ELSE "C05"
+        why == IF ~c04ok THEN "C04" ELSE "C05"
         \* C02: the stream id that reaches the backend must not be one that is still in use on that connection
         streamFree == ~(\E x \in out : x.b = b /\ x.bs = bs)
     IN
     /\ rq' = [rq EXCEPT ![r] =
-                [q EXCEPT !.ph = IF ghost /\ q.ph = "done" THEN "done" ELSE "wait",
+                [q EXCEPT !.ph = IF q.ph = "done" THEN "done" ELSE "wait",
                           !.must = {},
                           !.cur = IF isprep THEN q.cur ELSE h,
                           !.ab = b,
@@ -161,7 +163,7 @@ DoTake(r, h, b, bs, op) ==
                    IF conn[b].sess # q.sess THEN "request forwarded on a connection of another session (version/compression/keyspace)"
                    ELSE IF ~streamFree THEN "request written to the backend under a stream id that is still in use on that connection"
                    ELSE IF ~c04ok THEN "non-idempotent request re-sent after an outcome that may have applied it"
-                   ELSE IF q.nrep > 0 THEN "request sent to a backend after the client was answered"
+                   ELSE IF q.nrep > 0 THEN "request sent to a backend after the client was answered (not prescribed by the retry policy)"
                    ELSE IF isprep THEN "unexpected re-prepare"
                    ELSE "attempt not prescribed by the retry policy (host/order/retry)", r)
 
